@@ -159,6 +159,7 @@ func cmdCheck(args []string) {
 	ctx, err := Load(*repo, pats)
 	if err != nil {
 		// the tree does not load (does not compile?): nothing can be decided
+		os.RemoveAll(workDir)
 		fmt.Printf("UNDECIDED property=%s reason=packages do not load: %v\n", *prop, err)
 		writeEv(&evidence{PropertyID: *prop, Tier: *tier, Seed: seed, Level: "other",
 			Coverage: map[string]any{"explanation": "packages failed to load, no obligations generated: " + err.Error(), "obligations": 0, "discharged": 0},
@@ -382,6 +383,7 @@ func cmdCheck(args []string) {
 	writeEv(&evidence{PropertyID: *prop, Tier: *tier, Seed: seed, Level: level, Coverage: cov, Assumptions: as, Violations: violations})
 	fmt.Printf("property=%s tier=%s functions=%d obligations=%d discharged=%d undecided=%d known=%d violations=%d wall=%.1fs\n",
 		*prop, *tier, len(frs), total, discharged, len(undecided), len(knownHit), violations, time.Since(t0).Seconds())
+	os.RemoveAll(workDir)
 	if violations > 0 {
 		os.Exit(1)
 	}
